@@ -302,6 +302,7 @@ def run(ck):
     control_rules(ck, c, rc, rtab)
     segment_rules(ck, c, rc, rtab)
     pstack_rules(ck, c, hf, hsw, onames)
+    misc_arm_rules(ck, c, rc, rtab, hf)
 
 
 # memory instructions (WebAssembly 1.0, 4.4.4): N bits are read at ea = base (u32) + offset (u32) as a 33-bit sum, trap if
@@ -523,8 +524,9 @@ def control_rules(ck, c, rc, rtab):
             lt = [x for x in cs if x[0] == "Lt" and x[1] is True and "get_u16" in x[2] and "short" in x[2]]
             o = rc.origins(skips[0][1]["args"][1], deep=True)
             unsigned = ("cast", "u32") in rc.origins(rc.term(skips[0][0])["args"][1], deep=True)
-            ok = len(lt) == 1 and ("lit", stride) in o and ("lit", 1) in o and any(x[0] == "bin" and x[1].startswith("Mul") for x in o) and unsigned \
-                and not conditions_at(rc, finals[0][0]) == [] or (len(lt) == 1 and ("lit", stride) in o and ("lit", 1) in o and unsigned)
+            lf = rules.lin(rc, skips[0][1]["args"][1])
+            exact = lf is not None and lf[1] == stride and sorted(lf[0].values()) == [stride]
+            ok = len(lt) == 1 and exact and unsigned
             det = "index < number of labels (unsigned) selects entry (index + 1) * %d bytes further; otherwise the first (default) entry; found comparisons %s" % (stride, [(x[0], x[1]) for x in cs])
         nn_ += 1
         ck.ob("TAB", "interpreter:" + n, "table-selection", ok, det, rc.loc(tb))
@@ -831,3 +833,80 @@ def pstack_rules(ck, c, hf, hsw, onames):
               "every path changes the providers stack by %s, as the instruction type%s" % (wants, " does" if len(sharing) == 1 else "s of %s do" % sharing) if ok else
               "paths through the arm change the providers stack by %s, the instruction type%s require%s %s" % (nets, "" if len(sharing) == 1 else "s of %s" % sharing, "s" if len(sharing) == 1 else "", wants), hf.loc(tb))
     ck.floor("TAB", "arms whose providers-stack effect is compared with the instruction type", n, 95)
+
+
+def misc_arm_rules(ck, c, rc, rtab, hf):
+    """eqz, memory.size/grow, the copies the compiler inserts, and the driver loop of the validator"""
+    n = 0
+    for name, field in (("I32Eqz", "short"), ("I64Eqz", "long")):
+        if not ck.anchor(name in rtab, "TAB", "interpreter:" + name, "interpreter arm exists"):
+            continue
+        _, reg, tb = rtab[name]
+        ok, det = False, "no comparison with zero found"
+        for cx in rules.comparisons(rc):
+            if cx["bb"] not in reg or cx["op"] not in ("Eq", "Ne"):
+                continue
+            oa, ob = rc.origins(cx["a"]), rc.origins(cx["b"])
+            if not ((("field", field) in oa and ("lit", 0) in ob) or (("field", field) in ob and ("lit", 0) in oa)):
+                det = "the compared operand is not the %s view" % field
+                continue
+            br = rules.cmp_branches(rc, cx)
+            if not br:
+                continue
+            vals = {}
+            for side, blk in (("holds", br[1]), ("fails", br[2])):
+                for s in rc.stmts(blk):
+                    k = op_const(s["rv"].get("a", {})) if s.get("rv", {}).get("k") == "use" else None
+                    if k is not None and k.get("ty") in ("i32", "i64"):
+                        vals[side] = const_int(k)
+            want = {"holds": 1, "fails": 0} if cx["op"] == "Eq" else {"holds": 0, "fails": 1}
+            ok = vals == want
+            det = "result is 1 exactly when the %s operand equals 0 (found %s for `%s 0`)" % (field, vals, cx["op"])
+        n += 1
+        ck.ob("TAB", "interpreter:" + name, "eqz", ok, det, rc.loc(tb))
+    if ck.anchor("MemoryGrow" in rtab, "TAB", "interpreter:MemoryGrow", "interpreter arm exists"):
+        _, reg, tb = rtab["MemoryGrow"]
+        fails = []
+        for b in sorted(reg):
+            for s in rc.stmts(b):
+                k = op_const(s["rv"].get("a", {})) if s.get("rv", {}).get("k") == "use" else None
+                if k is not None and k.get("ty") == "i32" and const_int(k) in (-1, 4294967295):
+                    cs = [(kk, v) for (kk, nn, v) in conditions_at(rc, b) if kk.startswith("cmp:") and ("arg" in "".join(nn) or True)]
+                    fails.append((b, cs))
+        sl = [(bi, t) for (bi, t) in rc.calls(r"Vec::<T, A>::set_len$") if bi in reg]
+        ok = len(fails) == 1 and any(kk == "cmp:Gt" and v is True for (kk, v) in fails[0][1]) and len(sl) == 1
+        det = "returns -1 exactly when current pages + requested pages > maximum"
+        if ok:
+            o = rc.origins(sl[0][1]["args"][1], deep=True)
+            ok = any(a[0] == "bin" and a[1].startswith("Mul") for a in o) and any(a[0] == "bin" and a[1].startswith("Add") for a in o) and \
+                any(a[0] == "const" and a[1].endswith("PAGE_SIZE") for a in o) and ("cast", "u32") in o
+            det += "; the new length is (current + requested) pages with the request read as unsigned"
+        n += 1
+        ck.ob("TAB", "interpreter:MemoryGrow", "grow", ok, det, rc.loc(tb))
+    # copies inserted by the compiler: Copy(src -> dst) is emitted exactly when src differs from dst
+    ncp = 0
+    for (bi, t) in hf.calls(r"artifact::Instructions::push$"):
+        if opname(hf, t["args"][1]) != "Copy":
+            continue
+        eqs = [(kk, v) for (kk, nn, v) in conditions_at(hf, bi) if kk in ("cmp:Eq", "cmp:Ne")]
+        prov = [(kk, v) for (kk, v) in eqs]
+        if not prov:
+            continue
+        ncp += 1
+        kk, v = prov[-1]
+        differs = (v if kk == "cmp:Ne" else (not v))
+        ck.ob("DOM", hf.path, "copy-iff-locations-differ@%d" % ncp, differs, "a copy into the result register is emitted exactly when the value is not already there", hf.loc(bi))
+    ck.floor("DOM", "conditional copies in the compiler", ncp, 2)
+    n += ncp
+    # the validator drives the compiler: every instruction reaches the handler, and its verdict counts
+    vf = getfn(ck, "sc", W, W + "::validate::validate")
+    if vf:
+        hs = vf.calls(r"validate::Handler::handle_opcode$|Handler<.*>::handle_opcode$")
+        fin = vf.calls(r"validate::Handler::finish$|Handler<.*>::finish$")
+        nx = [bi for (bi, t) in vf.calls(r"Iterator::next$") if bi in vf.reach_from(vf.succ(bi))]
+        ok = len(hs) == 1 and rules.enforced_ok(rules.enforcement(vf, hs[0][0])) and bool(nx) and hs[0][0] in vf.reach_from(vf.succ(nx[0])) and nx[0] in vf.reach_from([hs[0][0]])
+        ck.ob("ENF", vf.path, "every-instruction-handed-to-the-compiler", ok, "inside the instruction loop the handler is called once per instruction and its failure is propagated", vf.loc(hs[0][0]) if hs else vf.loc())
+        ok = len(fin) == 1 and (rules.enforced_ok(rules.enforcement(vf, fin[0][0])) or vf.term(fin[0][0])["dest"][0] == 0)
+        ck.ob("ENF", vf.path, "handler-finish-is-the-result", ok, "the outcome is what the handler's finish returns", vf.loc())
+        n += 2
+    ck.floor("TAB", "eqz/grow/copy/driver obligations", n, 7)
